@@ -304,6 +304,33 @@ def normalize_tree(tree: ast.AST) -> ast.AST:
         return out
     for fn in [n for n in ast.walk(tree) if isinstance(n, (ast.FunctionDef, ast.AsyncFunctionDef))]:
         fn.body = split_display(fn.body)
+
+    # `L.acquire()` followed by `try: B finally: L.release()` is `with L: B`
+    def lock_idiom(body):
+        out = []
+        i = 0
+        while i < len(body):
+            st = body[i]
+            for fld in ("body", "orelse", "finalbody"):
+                sub = getattr(st, fld, None)
+                if isinstance(sub, list) and sub and isinstance(sub[0], ast.stmt):
+                    setattr(st, fld, lock_idiom(sub))
+            for hnd in getattr(st, "handlers", []) or []:
+                hnd.body = lock_idiom(hnd.body)
+            nxt = body[i + 1] if i + 1 < len(body) else None
+            if (isinstance(st, ast.Expr) and isinstance(st.value, ast.Call) and isinstance(st.value.func, ast.Attribute) and st.value.func.attr == "acquire" and not st.value.args and not st.value.keywords
+                    and isinstance(nxt, ast.Try) and not nxt.handlers and not nxt.orelse and len(nxt.finalbody) == 1 and isinstance(nxt.finalbody[0], ast.Expr)
+                    and isinstance(nxt.finalbody[0].value, ast.Call) and isinstance(nxt.finalbody[0].value.func, ast.Attribute) and nxt.finalbody[0].value.func.attr == "release"
+                    and ast.dump(nxt.finalbody[0].value.func.value) == ast.dump(st.value.func.value)):
+                w = ast.With(items=[ast.withitem(context_expr=st.value.func.value, optional_vars=None)], body=lock_idiom(nxt.body))
+                out.append(ast.copy_location(w, st))
+                i += 2
+                continue
+            out.append(st)
+            i += 1
+        return out
+    for fn in [n for n in ast.walk(tree) if isinstance(n, (ast.FunctionDef, ast.AsyncFunctionDef))]:
+        fn.body = lock_idiom(fn.body)
     if os.environ.get("SA_COPYPROP") == "1":  # experimental, off: too many rules are written against the temporaries of the pinned source
         _copy_propagate(tree)
     ast.fix_missing_locations(tree)
